@@ -5,6 +5,8 @@ assign      generated systems (selected / unselected molecules in any order) + s
             expectation computed from the documented rules.
 dssp-enum   every string over {H, C} up to a length bound -> convert_dssp_to_martini vs. a run-length reference (exhaustive).
 dssp-random random strings over the full supported alphabet, directly and through AnnotateMartiniSecondaryStructures.
+dssp-read   generated DSSP program output with chain-break ("!*") and in-chain-gap ("!") records -> read_dssp2.
+dssp-annotate  AnnotateDSSP / annotate_dssp with a stand-in DSSP program on molecules with atoms lacking a position.
 """
 import itertools
 
@@ -30,10 +32,18 @@ RULE = ('assign: systems of 1-6 molecules (1-8 residues of 1-3 atoms, sparse inc
         'AnnotateResidues.run_molecule with a sequence of the right length, one element, or a wrong length, of equal or distinct '
         'elements; non-trivial = a wrong length with all elements equal. dssp-system: 2-5 molecules, each fully / not / partly annotated with its own DSSP string, translated by one '
         'AnnotateMartiniSecondaryStructures.run_system call (optionally twice); non-trivial = a molecule that ends in a helix is '
-        'followed by one that starts with a helix.')
+        'followed by one that starts with a helix. dssp-read: generated DSSP program output (1-5 segments of 1-8 residues, "!*" break '
+        'records where the chain identifier changes, plain "!" records at a discontinuity inside a chain, three header versions, lines '
+        'with or without new line characters) -> read_dssp2; non-trivial = a "!" record is present. dssp-annotate: 1-3 molecules '
+        '(protein / other / without coordinates) of 1-7 residues of 1-5 atoms whose position is set, absent, None or non-finite, '
+        'through AnnotateDSSP / annotate_dssp with a stand-in for the DSSP program that answers one class per residue it is given '
+        '(directly or as program output read by read_dssp2); non-trivial = an annotated molecule has atoms without position or a '
+        'residue without any coordinates makes the answer too short.')
 ASSUMPTIONS = [
     'the k-th residue of a molecule is the k-th in order of first appearance; generated node keys increase with insertion order so that this coincides with the lowest-key order the library uses',
     'residues of one molecule have distinct (chain, resid, resname, insertion code)',
+    'DSSP output format (versions 2/3): class in column 17, break records carry "!" in the amino-acid column 14, followed by "*" when the chain identifier changes',
+    'a DSSP program answers one class per residue it is given; a molecule of which it saw exactly one residue is not judged (a one-element sequence is documented to be repeated)',
     'helix rewriting rules taken from the documented table: runs of 1-4 -> 3..., 5 -> 13332, 6 -> 113322, 7 -> 1113222, >= 8 -> 1111 H* 2222',
 ]
 
@@ -282,6 +292,295 @@ def _run_dssp_system(case):
            for md in case['mols']):
         classes.append('storage-order-against-key-order-matters')
     return Outcome(classes, junction)
+
+
+# ---------------------------------------------------------------------------
+# DSSP program output -> read_dssp2, and the DSSP annotation of molecules (AnnotateDSSP with a stand-in for the executable)
+
+DSSP_TAIL = '   0   0    0      0, 0.0     0, 0.0     0, 0.0     0, 0.0   0.000 360.0 360.0 360.0 360.0    0.0    0.0    0.0'
+DSSP_FIRST = ['==== Secondary Structure Definition by the program DSSP, CMBI version 2.0                          ==== DATE=2022-07-15        .',
+              '==== Secondary Structure Definition by the program DSSP, CMBI version 2.2.1                        ==== DATE=2020-01-01        .',
+              '==== Secondary Structure Definition by the program DSSP, NKI version 3.0                           ==== DATE=2019-03-05        .']
+DSSP_MIDDLE = ['REFERENCE W. KABSCH AND C.SANDER, BIOPOLYMERS 22 (1983) 2577-2637                                                              .',
+               'HEADER    HORMONE                                 13-APR-09   3I40                                                             .',
+               '   51  2  3  3  0 TOTAL NUMBER OF RESIDUES, NUMBER OF CHAINS, NUMBER OF SS-BRIDGES(TOTAL,INTRACHAIN,INTERCHAIN)                .',
+               '  3.9   ACCESSIBLE SURFACE OF PROTEIN (ANGSTROM**2)                                                                            .',
+               '  1  2  3  4  5  6  7  8  9 10 11 12 13 14 15 16 17 18 19 20 21 22 23 24 25 26 27 28 29 30     *** HISTOGRAMS OF ***           .',
+               '  0  0  0  0  0  0  0  0  0  0  0  0  0  0  0  0  0  0  0  0  0  0  0  0  0  0  0  0  0  0    RESIDUES PER ALPHA HELIX         .']
+DSSP_COLUMNS = '  #  RESIDUE AA STRUCTURE BP1 BP2  ACC     N-H-->O    O-->H-N    N-H-->O    O-->H-N    TCO  KAPPA ALPHA  PHI   PSI    X-CA   Y-CA   Z-CA'
+
+
+def dssp_text(records, first=0, middle=0, newlines=False, final_empty=True):
+    """The output of the DSSP program (format of versions 2 and 3, http://swift.cmbi.ru.nl/gv/dssp/DSSP_3.html) for `records`:
+    (resid, insertion code, chain, amino acid letter, class or ' ', 8 further characters of the STRUCTURE block) for a residue,
+    '!*' for a break with a change of chain identifier, '!' for a discontinuity inside a chain. Break records are numbered
+    like residues in the first column but are not residues."""
+    lines = [DSSP_FIRST[first]] + DSSP_MIDDLE[:middle] + [DSSP_COLUMNS]
+    for num, record in enumerate(records, start=1):
+        if record in ('!', '!*'):
+            line = '%5d        %-2s' % (num, record) + ' ' * 10 + DSSP_TAIL
+        else:
+            resid, icode, chain, aa, ss, detail = record
+            line = '%5d%5d%1s%1s %1s  %1s%-8s' % (num, resid, icode or ' ', chain or ' ', aa, ss, detail) + DSSP_TAIL
+        lines.append(line)
+    if newlines:
+        # as read from a file handle
+        return [line + '\n' for line in lines]
+    if final_empty:
+        # as produced by splitting the standard output of the program at the new lines
+        lines.append('')
+    return lines
+
+
+def _strategy_dssp_read(tier):
+    ss = st.text(alphabet='HBEGITS   ', min_size=1, max_size=8)
+    segment = st.fixed_dictionaries({
+        'new_chain': st.sampled_from([False, False, True]),
+        'gap': st.integers(2, 30), 'start': st.sampled_from([1, 1, 2, 17, 998]),
+        'ss': ss, 'aa': st.text(alphabet='ACDEFGHIKLMNPQRSTVWYXab', min_size=1, max_size=3),
+        'detail': st.text(alphabet=' ><X345S+-aAbB', max_size=8), 'icode': st.sampled_from(['', '', '', 'A']),
+    })
+    return st.fixed_dictionaries({
+        'segments': st.lists(segment, min_size=1, max_size=5),
+        'chains': st.sampled_from(['ABCDE', 'AXBYC', 'BAbaD', '1234A']),
+        'first': st.integers(0, len(DSSP_FIRST) - 1), 'middle': st.integers(0, len(DSSP_MIDDLE)),
+        'newlines': st.sampled_from([False, False, True]), 'final_empty': st.booleans(),
+    })
+
+
+def _dssp_read_records(case):
+    records = []
+    expected = []
+    breaks = []
+    chain_idx = 0
+    resid = None
+    for sidx, seg in enumerate(case['segments']):
+        if sidx == 0 or seg['new_chain']:
+            if sidx:
+                chain_idx += 1
+                records.append('!*')
+                breaks.append('!*')
+            resid = seg['start']
+        else:
+            records.append('!')
+            breaks.append('!')
+            resid += seg['gap']
+        for i, c in enumerate(seg['ss']):
+            aa = seg['aa'][i % len(seg['aa'])]
+            records.append((resid, seg['icode'], case['chains'][chain_idx], aa, c, seg['detail']))
+            expected.append('C' if c == ' ' else c)
+            resid += 1
+    return records, expected, breaks
+
+
+def _run_dssp_read(case):
+    """read_dssp2 on generated program output: one element per residue line, the k-th being the class of the k-th residue
+    (blank = 'C'); break records ('!*' between chains, '!' inside a chain) are not residues."""
+    from vermouth.dssp.dssp import read_dssp2
+    records, expected, breaks = _dssp_read_records(case)
+    lines = dssp_text(records, case['first'], case['middle'], case['newlines'], case['final_empty'])
+    try:
+        found = list(read_dssp2(lines))
+    except IOError as error:
+        raise Violation('dssp-read-rejected', 'valid DSSP output rejected (%s); residue table: %r' % (error, records))
+    if found != expected:
+        bucket = 'dssp-read-length' if len(found) != len(expected) else 'dssp-read-class'
+        raise Violation(bucket, 'read_dssp2 returned %r (%d elements) for %d residues with classes %r; breaks %r' % (
+            ''.join(found), len(found), len(expected), ''.join(expected), breaks))
+    classes = []
+    if '!' in breaks:
+        classes.append('in-chain-break')
+    if '!*' in breaks:
+        classes.append('chain-break')
+    if not breaks:
+        classes.append('no-break')
+    if case['newlines']:
+        classes.append('lines-with-newline')
+    # non-trivial: something follows a discontinuity inside a chain, so that a mis-read break shifts or lengthens the answer
+    return Outcome(classes, '!' in breaks)
+
+
+POSITION_MODES = ['ok', 'ok', 'ok', 'ok', 'ok', 'absent', 'none', 'nan', 'inf']
+BACKBONE = ['N', 'CA', 'C', 'O', 'CB', 'CG']
+
+
+def _strategy_dssp_annotate(tier):
+    residue = st.fixed_dictionaries({
+        'ss': st.sampled_from(list('HHEEBGITSC')),
+        'atoms': st.lists(st.sampled_from(POSITION_MODES), min_size=1, max_size=5),
+        # a residue without any coordinates (not resolved, or built afterwards)
+        'blank': st.sampled_from([False] * 9 + [True]),
+        'jump': st.sampled_from([1, 1, 1, 1, 4]),
+    })
+    mol = st.fixed_dictionaries({
+        'kind': st.sampled_from(['protein', 'protein', 'protein', 'protein', 'other', 'no-coordinates']),
+        'residues': st.lists(residue, min_size=1, max_size=7),
+        'all_positions': st.booleans(),
+        'key0': st.sampled_from([0, 2]), 'keystep': st.sampled_from([1, 3]), 'resid0': st.sampled_from([1, 7, 9995]),
+    })
+    return st.fixed_dictionaries({'mols': st.lists(mol, min_size=1, max_size=3), 'via_text': st.booleans(),
+                                  'entry': st.sampled_from(['processor', 'processor', 'function'])})
+
+
+def _run_dssp_annotate(case):
+    """AnnotateDSSP / annotate_dssp with a stand-in for the DSSP program that, like the program, answers one class per residue
+    it is given. Documented: only atoms with a position are passed on; non-protein molecules and molecules without any
+    position are left alone. C17: the k-th class goes to EVERY atom of the k-th residue of the molecule (with or without
+    coordinates); an answer that is shorter than the molecule (a residue without any coordinates) is an error, not a
+    shifted or partial assignment."""
+    import numpy as np
+    from vermouth.dssp.dssp import AnnotateDSSP, annotate_dssp, read_dssp2
+    chains = 'ABC'
+    mols = []
+    layout = []      # per molecule: per residue: list of (key, has position)
+    table = {}       # (chain, resid) -> class the program finds for that residue
+    for mi, md in enumerate(case['mols']):
+        mol = Molecule()
+        key = md['key0']
+        resid = md['resid0']
+        rows = []
+        for ridx, rd in enumerate(md['residues']):
+            resid += rd['jump']
+            row = []
+            for aidx, mode in enumerate(rd['atoms']):
+                if md['kind'] == 'no-coordinates' or (rd['blank'] and mode == 'ok'):
+                    mode = ['absent', 'none', 'nan', 'inf'][(aidx + ridx) % 4]
+                elif md['all_positions']:
+                    mode = 'ok'
+                attrs = dict(atomname=BACKBONE[aidx], resname='LIG' if md['kind'] == 'other' else PROT[(ridx + mi) % len(PROT)],
+                             resid=resid, chain=chains[mi], element=BACKBONE[aidx][0], atomid=key + 1)
+                if mode == 'ok':
+                    attrs['position'] = np.array([0.1 * key, 0.05 * aidx, 0.0])
+                elif mode == 'none':
+                    attrs['position'] = None
+                elif mode == 'nan':
+                    attrs['position'] = np.array([0.1 * key, float('nan'), 0.0])
+                elif mode == 'inf':
+                    attrs['position'] = np.array([float('inf'), 0.0, 0.0])
+                mol.add_node(key, **attrs)
+                row.append((key, mode == 'ok'))
+                key += md['keystep']
+            table[(chains[mi], resid)] = rd['ss']
+            rows.append(row)
+        keys = list(mol.nodes)
+        for a, b in zip(keys[:-1], keys[1:]):
+            mol.add_edge(a, b)
+        mols.append(mol)
+        layout.append(rows)
+
+    calls = []
+
+    def program(system):
+        if len(system.molecules) != 1:
+            raise Violation('dssp-annotate-call', 'the DSSP callable received %d molecules' % len(system.molecules))
+        received = system.molecules[0]
+        residues = {}
+        for k in received.nodes:
+            node = received.nodes[k]
+            position = node.get('position')
+            if position is None or not all(float(x) == float(x) and abs(float(x)) != float('inf') for x in position):
+                raise Violation('dssp-annotate-unpositioned-atom-passed', 'atom %r without a usable position was passed to DSSP' % (k,))
+            residues.setdefault((node['chain'], node['resid']), []).append(k)
+        ordered = sorted(residues, key=lambda ident: min(residues[ident]))
+        calls.append((ordered[0][0] if ordered else None, sorted(received.nodes)))
+        answer = [table[ident] for ident in ordered]
+        if not case['via_text']:
+            return answer
+        records = []
+        for i, ident in enumerate(ordered):
+            if i and ident[1] != ordered[i - 1][1] + 1:
+                records.append('!')
+            records.append((ident[1], '', ident[0], 'A', ' ' if table[ident] == 'C' else table[ident], ''))
+        return read_dssp2(dssp_text(records))
+
+    def attributes(mol):
+        return {k: mol.nodes[k].get('aasecstruct', '<<absent>>') for k in mol.nodes}
+
+    expectations = []
+    for md, rows in zip(case['mols'], layout):
+        seen = [any(has for _, has in row) for row in rows]
+        if md['kind'] == 'other' or not any(seen):
+            expectations.append('untouched')
+        elif all(seen):
+            expectations.append('annotated')
+        elif sum(seen) == 1:
+            expectations.append('one-seen')   # a one-element sequence is documented to be repeated; either outcome is accepted
+        else:
+            expectations.append('error')
+    processor = AnnotateDSSP(executable=program)
+    classes = []
+    whole_system = case['entry'] == 'processor' and all(e in ('untouched', 'annotated') for e in expectations)
+    system = System()
+    system.meta['header'] = []
+    system.molecules = mols
+    if whole_system:
+        processor.run_system(system)
+        classes.append('run-system')
+    for mi, (mol, rows, expect) in enumerate(zip(mols, layout, expectations)):
+        ncalls = len(calls)
+        before = attributes(mol)
+        raised = False
+        if not whole_system:
+            try:
+                if case['entry'] == 'function':
+                    annotate_dssp(mol, program)
+                else:
+                    processor.run_molecule(mol)
+            except ValueError:
+                raised = True
+            if expect == 'untouched' and len(calls) != ncalls:
+                raise Violation('dssp-annotate-called-for-nothing', 'DSSP was run on molecule %d (%s)' % (mi, case['mols'][mi]['kind']))
+        seq = [rd['ss'] for rd in case['mols'][mi]['residues']]
+        after = attributes(mol)
+        if raised:
+            if expect not in ('error', 'one-seen'):
+                raise Violation('dssp-annotate-rejected', 'ValueError for molecule %d although DSSP answered one class per residue (%r)' % (mi, seq))
+            if after != before:
+                raise Violation('dssp-annotate-partial', 'ValueError raised but attributes were changed')
+            classes.append('residue-without-coordinates-error')
+            continue
+        if expect == 'error':
+            raise Violation('dssp-annotate-accepted-mismatch', 'molecule %d has %d residues, DSSP saw and answered %d, no error; attributes per residue now %r' % (
+                mi, len(rows), sum(any(h for _, h in row) for row in rows), [[after[k] for k, _ in row] for row in rows]))
+        if expect == 'untouched':
+            if after != before or any(v != '<<absent>>' for v in after.values()):
+                raise Violation('dssp-annotate-untouched', 'molecule %d (%s) was modified' % (mi, case['mols'][mi]['kind']))
+            classes.append('molecule-left-alone')
+            continue
+        if expect == 'one-seen':
+            only = [rd['ss'] for rd, row in zip(case['mols'][mi]['residues'], rows) if any(h for _, h in row)][0]
+            seq = [only] * len(rows)
+        positioned = sorted(k for row in rows for k, has in row if has)
+        mine = [c for c in calls if c[0] == chains[mi]]
+        if len(mine) != 1 or mine[0][1] != positioned:
+            raise Violation('dssp-annotate-input', 'molecule %d: DSSP calls %r, atoms with a position %r' % (mi, mine, positioned))
+        for ridx, row in enumerate(rows):
+            for k, has in row:
+                if after[k] != seq[ridx]:
+                    raise Violation('dssp-annotate-misplaced', 'molecule %d residue %d atom %r (%s position): aasecstruct %r, class of that '
+                                    'residue %r; per residue: %r' % (mi, ridx, k, 'with' if has else 'without', after[k], seq[ridx],
+                                                                     [[after[x] for x, _ in r] for r in rows]))
+        classes.append('annotated')
+        if any(not has for row in rows for _, has in row):
+            classes.append('annotated-with-atoms-without-position')
+        if any(not row[0][1] for row in rows):
+            classes.append('first-atom-of-a-residue-without-position')
+    if whole_system:
+        # the translation that follows in the pipeline
+        AnnotateMartiniSecondaryStructures().run_system(system)
+        for mi, (mol, rows, expect) in enumerate(zip(mols, layout, expectations)):
+            want = ref_convert(''.join(rd['ss'] for rd in case['mols'][mi]['residues'])) if expect == 'annotated' else None
+            for ridx, row in enumerate(rows):
+                for k, _ in row:
+                    got = mol.nodes[k].get('cgsecstruct')
+                    if got != (want[ridx] if want else None):
+                        raise Violation('dssp-annotate-translation', 'molecule %d residue %d atom %r: cgsecstruct %r, expected %r' % (
+                            mi, ridx, k, got, want[ridx] if want else None))
+    classes = sorted(set(classes))
+    if case['via_text']:
+        classes.append('via-text')
+    nontrivial = 'annotated-with-atoms-without-position' in classes or 'residue-without-coordinates-error' in classes
+    return Outcome(classes, nontrivial)
 
 
 def _run_dssp_random(case):
@@ -552,4 +851,8 @@ PARTS = [
          floors={'length-error': 0.2, 'assigned': 0.2}),
     Part('dssp-system', _run_dssp_system, strategy=_strategy_dssp_system, examples={'quick': 1600, 'thorough': 40000},
          floors={'helix-at-both-sides-of-a-molecule-boundary': 0.1}),
+    Part('dssp-read', _run_dssp_read, strategy=_strategy_dssp_read, examples={'quick': 1600, 'thorough': 40000},
+         floors={'in-chain-break': 0.2, 'chain-break': 0.15}),
+    Part('dssp-annotate', _run_dssp_annotate, strategy=_strategy_dssp_annotate, examples={'quick': 1600, 'thorough': 40000},
+         floors={'annotated-with-atoms-without-position': 0.1, 'residue-without-coordinates-error': 0.03}),
 ]
